@@ -8,7 +8,7 @@ from ..callgraph import get_callgraph
 from ..cfg import cfg_of
 from ..locks import accesses, get_locks
 from ..model import AnalysisError, dotted, norm
-from .common import bool_atoms, bool_eval, find_calls, guards_of, key_of, mentions, mentions_attr
+from .common import formula_eval, formula_leaves, bool_atoms, bool_eval, find_calls, guards_of, key_of, mentions, mentions_attr
 
 EXPLANATION = (
     "Static lock-region and dominance analysis of channel.py: the worker's close decision (close_when_flushed := True), "
@@ -150,39 +150,57 @@ def rule_r4(ctx, rid="C11.R4"):
     if len(rets) != 1 or rets[0].value is None:
         raise AnalysisError("readable() is not a single return expression")
     e = rets[0].value
-    atoms = bool_atoms(e)
-    need = {
-        "will_close": [a for a in atoms if "self.will_close" == a],
-        "close_when_flushed": [a for a in atoms if "self.close_when_flushed" == a],
-        "lookahead": [a for a in atoms if "channel_request_lookahead" in a and "len(self.requests)" in a],
-        "pending output": [a for a in atoms if "total_outbufs_len" in a],
-    }
-    for name, al in need.items():
-        if not al:
-            ctx.r.violation(rid, key_of(f, None, "readable-missing::" + name), "readable() does not consult %s" % name, f.loc())
-            continue
-        a0 = al[0]
-        bad = None
-        others = [a for a in atoms if a != a0]
-        for vals in itertools.product([False, True], repeat=len(others)):
-            asg = dict(zip(others, vals))
-            asg[a0] = True
-            if bool_eval(e, asg):
-                bad = asg
-                break
-        if bad is None:
-            ctx.r.ok(rid, "readable() is false whenever %s holds" % a0, f.loc())
+    # the quantities the formula speaks about, valued over small domains: flags {F,T}, counters {0,1,2}
+    leaves = formula_leaves(e)
+    role = {}
+    for t in leaves:
+        if t == "self.will_close":
+            role[t] = "will_close"
+        elif t == "self.close_when_flushed":
+            role[t] = "close_when_flushed"
+        elif t == "len(self.requests)":
+            role[t] = "queued"
+        elif t.endswith("channel_request_lookahead"):
+            role[t] = "lookahead"
+        elif t.endswith("total_outbufs_len"):
+            role[t] = "pending output"
         else:
-            ctx.r.violation(rid, key_of(f, None, "readable-true-under::" + name), "readable() can be true although %s holds" % a0, f.loc())
-    # the lookahead comparison must be strict in the right direction: len > lookahead
-    for a in need["lookahead"]:
-        c = ast.parse(a, mode="eval").body
-        if isinstance(c, ast.Compare) and isinstance(c.ops[0], (ast.Gt,)) and "len(self.requests)" in norm(c.left):
-            ctx.r.ok(rid, "reading stops once more than `lookahead` requests are queued", f.loc())
-        elif isinstance(c, ast.Compare) and isinstance(c.ops[0], (ast.Lt,)) and "len(self.requests)" in norm(c.comparators[0]):
-            ctx.r.ok(rid, "reading stops once more than `lookahead` requests are queued", f.loc())
+            role[t] = "other"
+    have = set(role.values())
+    for name in ("will_close", "close_when_flushed", "queued", "lookahead", "pending output"):
+        if name not in have:
+            ctx.r.violation(rid, key_of(f, None, "readable-missing::" + ("lookahead" if name in ("queued", "lookahead") else name)),
+                            "readable() does not consult %s" % name, f.loc())
+    dom = {t: ((0, 1, 2) if role[t] in ("queued", "lookahead", "pending output") else (False, True)) for t in leaves}
+    bad = {}
+    clear_ok = True
+    for vals in itertools.product(*[dom[t] for t in leaves]):
+        env = dict(zip(leaves, vals))
+        try:
+            v = bool(formula_eval(e, env))
+        except (KeyError, TypeError) as ex:
+            raise AnalysisError("cannot evaluate readable(): %s" % ex)
+        r = {role[t]: env[t] for t in leaves}
+        stops = {
+            "will_close": r.get("will_close") is True,
+            "close_when_flushed": r.get("close_when_flushed") is True,
+            "lookahead": ("queued" in r and "lookahead" in r and r["queued"] > r["lookahead"]),
+            "pending output": bool(r.get("pending output")),
+        }
+        for name, on in stops.items():
+            if on and v:
+                bad.setdefault(name, env)
+        if not any(stops.values()) and all(env[t] is False for t in leaves if role[t] == "other") and not v:
+            clear_ok = False
+    for name in ("will_close", "close_when_flushed", "lookahead", "pending output"):
+        if name in bad:
+            ctx.r.violation(rid, key_of(f, None, "readable-true-under::" + name), "readable() can be true although %s holds (e.g. %s)" % (name, bad[name]), f.loc())
         else:
-            ctx.r.violation(rid, key_of(f, None, "lookahead-comparison"), "lookahead comparison %s is not 'queue length > lookahead'" % a, f.loc())
+            ctx.r.ok(rid, "readable() is false whenever %s holds" % name, f.loc())
+    if clear_ok:
+        ctx.r.ok(rid, "reading stops only once more than `lookahead` requests are queued (readable with queue length <= lookahead and nothing pending)", f.loc())
+    else:
+        ctx.r.violation(rid, key_of(f, None, "lookahead-comparison"), "readable() is false although nothing is pending and the queue is not longer than the lookahead", f.loc())
 
 
 def rule_r5(ctx):
